@@ -111,4 +111,89 @@ theorem src_KMP_partial (p : Bytes) :
         · simp only [hx, if_true]; rfl
         · simp only [hx, if_false]; rfl
 
+/-- `KMP.search` as written today = the model `kmpSearch`, for EVERY text and pattern (non-empty pattern: the list of
+    offsets; empty pattern: IndexError on a non-empty text, `[]` on the empty text), including termination of the
+    fall-back loop within its fuel. -/
+theorem src_KMP_search (t p : Bytes) :
+    Gen.Src.Init.KMP_search t p = Model.Search.kmpSearch t p := by
+  unfold Gen.Src.Init.KMP_search Model.Search.kmpSearch
+  rw [src_KMP_partial]
+  cases Model.Search.kmpPartial p with
+  | error e => rfl
+  | ok tbl =>
+    have hr : Py.range (Py.len t) =
+        (List.range t.length).map (fun (k : Nat) => ((0 : Nat) : Int) + (k : Int)) := by
+      unfold Py.range Py.len
+      simp
+    simp only [Except.map]
+    rw [ok_bind]
+    rw [hr, bind_ok_snd]
+    refine searchLoop_tie t p tbl _ (fun j ret i c hti => ?_) t 0 0 [] rfl
+    simp only [toNat_succ, byteAt_nat t i c hti]
+    rw [fall_tie p tbl c _ _ ?hc ?hb]
+    case hc =>
+      intro j
+      simp only [getByte_nat]
+      by_cases hj : j > 0
+      · have hj' : (j : Int) > 0 := by omega
+        rw [if_pos hj, if_pos hj']
+        cases p[j]? with
+        | none => rfl
+        | some x =>
+          simp only [liftB_some, ok_bind, decide_eq_decide.mpr ((u8_ne_iff c x).trans ne_comm)]
+      · have hj' : ¬ (j : Int) > 0 := by omega
+        rw [if_neg hj, if_neg hj']
+    case hb =>
+      intro j hj
+      have hj1 : (j : Int) - 1 = ((j - 1 : Nat) : Int) := by omega
+      simp only [hj1, getItem_nat]
+      cases tbl[j - 1]? <;> rfl
+    unfold searchStep
+    cases Model.Search.kmpFall p tbl c (j + 1) j with
+    | error e => rfl
+    | ok j2 =>
+      simp only [Except.map, ok_bind, Int.ofNat_eq_natCast, getByte_nat]
+      cases hpj : p[j2]? with
+      | none => rfl
+      | some x =>
+        simp only [liftB_some, ok_bind, u8_eq_iff, beq_iff_eq]
+        have hlt : j2 < p.length := (List.getElem?_eq_some_iff.mp hpj).1
+        have hJ : (if c = x then (j2 : Int) + 1 else (j2 : Int)) = ((if c = x then j2 + 1 else j2 : Nat) : Int) := by
+          split <;> simp
+        rw [hJ]
+        generalize hJdef : (if c = x then j2 + 1 else j2) = J
+        have hJ1 : J = p.length → 1 ≤ J := by intro h; split at hJdef <;> omega
+        by_cases hJp : J = p.length
+        · have h1 : (J : Int) = Py.len p := by unfold Py.len; omega
+          have hj1 : (J : Int) - 1 = ((J - 1 : Nat) : Int) := by have := hJ1 hJp; omega
+          rw [if_pos h1, if_pos hJp, hj1, getItem_nat]
+          cases tbl[J - 1]? <;> rfl
+        · have h1 : ¬ (J : Int) = Py.len p := by unfold Py.len; omega
+          rw [if_neg h1, if_neg hJp]; rfl
+
+/-- the completeness theorem of the model transfers to the SOURCE: `KMP().search(T, P)` as written today returns
+    exactly the ascending list of all (possibly overlapping) occurrences, for every text and non-empty pattern -/
+theorem src_KMP_search_all_occurrences (t p : Bytes) (hp : p ≠ []) :
+    Gen.Src.Init.KMP_search t p = .ok ((Spec.occ t p).map Int.ofNat) := by
+  rw [src_KMP_search]; exact Lemmas.KMP.kmpSearch_eq_occ t p hp
+
+/-- … and `KMP().partial(P)` as written today is the failure table (longest proper borders) -/
+theorem src_KMP_partial_failure_table (p : Bytes) (hp : p ≠ []) :
+    ∃ tbl : List Nat, Gen.Src.Init.KMP_partial p = .ok (tbl.map Int.ofNat) ∧ tbl.length = p.length ∧
+      ∀ k, k < p.length → ∃ b, tbl[k]? = some b ∧ b < k + 1 ∧
+        p.take b <:+ p.take (k + 1) ∧
+        ∀ b', b' < k + 1 → p.take b' <:+ p.take (k + 1) → b' ≤ b := by
+  obtain ⟨tbl, h1, h2, h3⟩ := Lemmas.KMP.kmpPartial_spec p hp
+  refine ⟨tbl, by rw [src_KMP_partial, h1]; rfl, h2, ?_⟩
+  intro k hk
+  obtain ⟨b, hb1, hb2, hb3, hb4⟩ := h3 k hk
+  exact ⟨b, hb1, hb2, hb3.2, fun b' hb' hs => hb4 b' hb' ⟨by omega, hs⟩⟩
+
+example : ([97, 98, 97] : Bytes) ≠ [] := by decide
+example : Gen.Src.Init.KMP_search [97, 98, 97, 98, 98, 97, 98, 97, 98, 97] [97, 98, 97] = .ok [0, 5, 7] := by rfl
+example : Gen.Src.Init.KMP_partial [97, 98, 97, 98, 97, 99] = .ok [0, 0, 1, 2, 3, 0] := by rfl
+/-- outside the domain of the corollaries (empty pattern): IndexError on a non-empty text, `[]` on the empty text -/
+example : Gen.Src.Init.KMP_search [7] [] = .error .index := by rfl
+example : Gen.Src.Init.KMP_search [] [] = .ok [] := by rfl
+
 end Acra.Props.C17
